@@ -44,6 +44,19 @@ pub fn local_addr() -> SocketAddr {
     "10.1.2.3:5000".parse().unwrap()
 }
 
+/// The agent's local address varies with the history (a deterministic function of it, so that a
+/// witness replays identically): IPv4, the IPv6 and IPv4 wildcards, loopback, an IPv4-mapped and a
+/// global IPv6 address.  Transmissions leave from exactly this address whatever the destination is.
+pub fn local_of(h: &History) -> SocketAddr {
+    const LOCALS: [&str; 6] = ["10.1.2.3:5000", "[::]:5000", "0.0.0.0:3478", "[::1]:9", "[::ffff:10.1.2.3]:5000", "[2001:db8::99]:5000"];
+    let k = h.remote_addr.unwrap_or(7) as usize + h.remote0.unwrap_or(5) as usize * 3 + h.tcp as usize + h.ops.len();
+    // two thirds of the histories keep the plain IPv4 address
+    if k % 3 != 0 {
+        return local_addr();
+    }
+    LOCALS[(k / 3) % LOCALS.len()].parse().unwrap()
+}
+
 /// indices 0..NTID are the core ids every generator uses; larger indices (the many-transactions
 /// shape) get ids of their own: b7 3c <index, 16 bit> 05 .. 0c
 pub fn tid_bytes(i: usize) -> [u8; 12] {
@@ -319,6 +332,47 @@ impl History {
 // ---------------------------------------------------------------------------------------------
 // messages
 
+/// An attribute implemented outside the crate whose serialisation is not pure: every time it is
+/// written it carries the next value of a counter.  A request carrying it has no predictable bytes,
+/// but whatever the agent serialised when the request was handed over is what *every* transmission
+/// of that request carries (the message is serialised once).
+#[derive(Debug)]
+pub struct CountingAttr;
+static COUNTING_ATTR: CountingAttr = CountingAttr;
+thread_local! {
+    static COUNTING_VALUE: std::cell::Cell<u32> = const { std::cell::Cell::new(0) };
+}
+impl stun_types::attribute::Attribute for CountingAttr {
+    fn get_type(&self) -> AttributeType {
+        AttributeType::new(0xff7c)
+    }
+    fn length(&self) -> u16 {
+        4
+    }
+}
+impl stun_types::attribute::AttributeWrite for CountingAttr {
+    fn write_into_unchecked(&self, dest: &mut [u8]) {
+        let v = COUNTING_VALUE.with(|c| {
+            c.set(c.get().wrapping_add(1));
+            c.get()
+        });
+        dest[0..4].copy_from_slice(&[0xff, 0x7c, 0, 4]);
+        dest[4..8].copy_from_slice(&v.to_be_bytes());
+    }
+    fn to_raw(&self) -> RawAttribute<'_> {
+        let v = COUNTING_VALUE.with(|c| {
+            c.set(c.get().wrapping_add(1));
+            c.get()
+        });
+        RawAttribute::new(AttributeType::new(0xff7c), &v.to_be_bytes()).into_owned()
+    }
+}
+/// payload values for which the sent message carries the impure attribute
+pub fn impure_payload(payload: u16) -> bool {
+    // (not together with the FINGERPRINT the payload % 4 == 3 messages get: the attribute must be the last one)
+    payload % 11 == 10 && payload % 4 != 3
+}
+
 /// Build the message for a Send op through the crate's builder (the thing under test hands the
 /// agent a `MessageBuilder`).  Returns the builder's own serialisation and whether it is sealed.
 pub fn build_send<'a>(kind: MsgKind, tid: usize, seal: Sealing, payload: u16) -> (stun_types::message::MessageBuilder<'a>, Vec<u8>, bool) {
@@ -347,6 +401,9 @@ pub fn build_send<'a>(kind: MsgKind, tid: usize, seal: Sealing, payload: u16) ->
     let _ = b.add_raw_attribute(RawAttribute::new(AttributeType::new(0x7f40 + (payload % 3)), &pv).into_owned());
     if payload % 2 == 1 {
         let _ = b.add_raw_attribute(RawAttribute::new(AttributeType::new(0xff41), &[payload as u8, (payload >> 8) as u8]).into_owned());
+    }
+    if impure_payload(payload) && seal == Sealing::None {
+        let _ = b.add_attribute(&COUNTING_ATTR);
     }
     let lc = imp::to_impl_creds(&creds(3));
     match seal {
@@ -567,6 +624,8 @@ struct Eng<'c> {
     rec: Option<Vec<String>>,
     /// address indices >= NCORE that were handed to the agent (observed from then on)
     touched: std::collections::BTreeSet<usize>,
+    /// the agent's local address in this run
+    local: SocketAddr,
     /// route the next agent calls through the request handle of this transaction index
     via: Option<usize>,
     /// what the handle said about its peer address after the routed call (None = handle's transaction gone)
@@ -707,7 +766,7 @@ impl<'c> Eng<'c> {
         }
         // unrelated agents: bump the global counter, occupy other (and the same) transaction ids
         let mut a = StunAgent::builder(self.transport, "10.9.9.9:1".parse().unwrap()).build();
-        let (b, _, _) = build_send(MsgKind::Request, self.step % NTID, Sealing::None, self.step as u16);
+        let (b, _, _) = build_send(MsgKind::Request, self.step % NTID, Sealing::None, (self.step % 10) as u16);
         let t = Instant::now();
         let _ = a.send(b, addr(self.step), t);
         let _ = a.poll(t + Duration::from_millis(700));
@@ -736,7 +795,7 @@ impl<'c> Eng<'c> {
                 }
             }
             let mut val = vec![];
-            let universe: Vec<SocketAddr> = (0..NCORE).chain(self.touched.iter().copied()).map(addr).chain(["203.0.113.9:9".parse().unwrap(), local_addr()]).collect();
+            let universe: Vec<SocketAddr> = (0..NCORE).chain(self.touched.iter().copied()).map(addr).chain(["203.0.113.9:9".parse().unwrap(), self.local]).collect();
             for a in universe {
                 if self.agent.is_validated_peer(a) {
                     val.push(a.to_string());
@@ -802,7 +861,7 @@ impl<'c> Eng<'c> {
             }
         }
         // an address never handed to the agent is never validated
-        if self.agent.is_validated_peer("203.0.113.9:9".parse().unwrap()) || self.agent.is_validated_peer(local_addr()) {
+        if self.agent.is_validated_peer("203.0.113.9:9".parse().unwrap()) || self.agent.is_validated_peer(self.local) {
             self.fail("C15", "validated-peers", "StunAgent::is_validated_peer", "unrelated-address", "false".into(), "true".into());
         }
     }
@@ -818,13 +877,13 @@ impl<'c> Eng<'c> {
                 format!("{} bytes {}", want_bytes.len(), hex(&want_bytes[..want_bytes.len().min(48)])),
                 format!("{} bytes {} (first difference at {first:?})", data.len(), hex(&data[..data.len().min(48)])),
             );
-        } else if from != local_addr() || to != addr(want_to) || transport != self.transport {
+        } else if from != self.local || to != addr(want_to) || transport != self.transport {
             self.fail(
                 "C18",
                 "transmit-addressing",
                 what,
                 "",
-                format!("{} -> {} over {}", local_addr(), addr(want_to), self.transport),
+                format!("{} -> {} over {}", self.local, addr(want_to), self.transport),
                 format!("{from} -> {to} over {transport}"),
             );
         }
@@ -1082,6 +1141,21 @@ impl<'c> Eng<'c> {
             return;
         };
         self.last_wait = None;
+        // a message with the impure attribute: the serialisation the agent made is the reference from
+        // here on (it must still be this message: same length, same header, same other attributes)
+        let impure = impure_payload(payload) && seal == Sealing::None;
+        let bytes = match (&r, impure) {
+            (R::Ok(d, ..), true) => {
+                let same_shape = d.len() == bytes.len() && d.len() >= 8 && d[..d.len() - 4] == bytes[..bytes.len() - 4];
+                if !same_shape {
+                    self.fail("C18", "transmit-bytes", "StunAgent::send", "impure-attribute", format!("{} bytes equal to the message except the counter value", bytes.len()), format!("{} bytes {}", d.len(), hex(&d[..d.len().min(48)])));
+                    return;
+                }
+                self.ctx.count("requests-with-an-impure-attribute");
+                d.clone()
+            }
+            _ => bytes,
+        };
         let i = tid;
         if i >= NTID {
             self.touched_tids.insert(i);
@@ -1537,10 +1611,12 @@ impl<'c> Eng<'c> {
 
 /// Execute `h` on a fresh agent in lock-step with the model.
 pub fn run_history(ctx: &mut Ctx, h: &History, cfg: &RunCfg) -> RunResult {
+    // the impure attribute counts from zero in every run (replays of one history see the same values)
+    COUNTING_VALUE.with(|c| c.set(0));
     let transport = if h.tcp { TransportType::Tcp } else { TransportType::Udp };
     let ra = h.remote_addr.map(|i| addr(i as usize));
     let agent = match guard(|| {
-        let b = StunAgent::builder(transport, local_addr());
+        let b = StunAgent::builder(transport, local_of(h));
         match ra {
             Some(a) => b.remote_addr(a).build(),
             None => b.build(),
@@ -1569,6 +1645,7 @@ pub fn run_history(ctx: &mut Ctx, h: &History, cfg: &RunCfg) -> RunResult {
         step: 0,
         rec: None,
         touched: Default::default(),
+        local: local_of(h),
         via: None,
         via_peer: None,
         touched_tids: Default::default(),
@@ -1579,10 +1656,11 @@ pub fn run_history(ctx: &mut Ctx, h: &History, cfg: &RunCfg) -> RunResult {
     if cfg.record && e.ctx.eventlog.is_some() && e.ctx.eventlog_left > 64 {
         e.rec = Some(Vec::with_capacity(64));
         let r0 = h.remote0.map(|c| creds(c as usize % 3).to_json());
-        e.rec(|| json!({"op": "begin", "tcp": h.tcp, "local": local_addr().to_string(), "remote0": r0, "remote_addr": ra.map(|a| a.to_string())}));
+        let local_s = e.local.to_string();
+        e.rec(|| json!({"op": "begin", "tcp": h.tcp, "local": local_s, "remote0": r0, "remote_addr": ra.map(|a| a.to_string())}));
     }
-    if e.agent.transport() != transport || e.agent.local_addr() != local_addr() || e.agent.remote_addr() != ra {
-        e.fail("C18", "agent-identity", "StunAgent::{transport,local_addr,remote_addr}", "", format!("{transport} {} {ra:?}", local_addr()), format!("{} {} {:?}", e.agent.transport(), e.agent.local_addr(), e.agent.remote_addr()));
+    if e.agent.transport() != transport || e.agent.local_addr() != e.local || e.agent.remote_addr() != ra {
+        e.fail("C18", "agent-identity", "StunAgent::{transport,local_addr,remote_addr}", "", format!("{transport} {} {ra:?}", e.local), format!("{} {} {:?}", e.agent.transport(), e.agent.local_addr(), e.agent.remote_addr()));
     }
     if let Some(c) = h.remote0 {
         let ic = imp::to_impl_creds(&creds(c as usize % 3));
